@@ -244,6 +244,11 @@ func init() {
 		"vIdealEq": func(ex *Exec, g *Goroutine, cs *callSite, args []Value) Value {
 			return ex.eqBytes(ex.sliceTerms(args[0]), ex.sliceTerms(args[1]))
 		},
+		// vSingleP(): natively runtime.GOMAXPROCS(1) (makes sync.Pool reuse
+		// deterministic in a replay); nothing to do in the engine
+		"vSingleP": func(ex *Exec, g *Goroutine, cs *callSite, args []Value) Value {
+			return nil
+		},
 		// vNonceReuse(): have two AEAD Seal calls of this run used the same
 		// key with the same nonce? (natively: not observable, false)
 		"vNonceReuse": func(ex *Exec, g *Goroutine, cs *callSite, args []Value) Value {
